@@ -968,6 +968,9 @@ class Interp:
                     if name == '_replace':
                         return PyCallable(lambda interp, a, k, nd: interp.instantiate(obj.cls, [], dict(dict(zip(names, obj.tuple_items())), **k), nd))
                     return ModelMethod(tuple(obj.tuple_items()), name)
+                if not self.all_repo_bases(obj.cls) and not (name.startswith('__') and name.endswith('__')):
+                    # the class inherits from a library class: what that base offers under this name was not written down
+                    self.fail(f'attribute {name!r} of an instance of {obj.cls.name} (library base class)', node)
                 raise AbsRaise(ExcVal('AttributeError', (f'{obj.cls.name} has no attribute {name}',)), node)
             if isinstance(v, FuncVal):
                 if v.is_property:
@@ -1278,6 +1281,9 @@ class Interp:
         if type(fn).__name__ == 'PartialVal':
             return self.call(fn.func, list(fn.args) + list(args), dict(fn.keywords, **kwargs), node, frame)
         return self.models.call(self, fn, args, kwargs, node, frame)
+
+    def all_repo_bases(self, cls):
+        return all(isinstance(b, ClassVal) and self.all_repo_bases(b) or (isinstance(b, ExtRef) and b.path in ('builtins.object',)) for b in cls.bases)
 
     def instantiate(self, cls, args, kwargs, node):
         if self.class_is_exception(cls):
